@@ -16,6 +16,8 @@
 #include <vector>
 
 #include "Arguments.hh"
+#include <errno.h>
+
 #include "vf.hh"
 
 using phosg::Arguments;
@@ -326,6 +328,15 @@ Expect expectation(const RefNum& n, uint64_t* bits) {
   return E_VALUE;
 }
 
+// errno is ambient process state: whatever an earlier, unrelated library call left there.  The
+// getters' results must not depend on it, so every typed read starts from a pre-decided value
+// (a function of the case index and the access path, hence identical on replay).  Without this a
+// defect that consults a stale errno fails or passes depending on which cases ran before it.
+static inline void set_ambient_errno(const vf::Run& r, int via) {
+  static const int STATES[3] = {0, ERANGE, EINVAL};
+  errno = STATES[(r.cur + (uint64_t)via) % 3];
+}
+
 enum Via { VIA_NAMED, VIA_MULTI, VIA_DEFAULT, VIA_POSITIONAL, NVIA };
 const char* via_name[] = {"get<T>(name, fmt)", "get_multi<T>(name, fmt)", "get<T>(name, default, fmt)", "get<T>(position, fmt)"};
 
@@ -339,6 +350,7 @@ const char* int_read(vf::Run& r, Arguments& named, Arguments* positional, const 
   size_t count = 1;
   std::string what;
   std::string oc = vf::outcome([&] {
+    set_ambient_errno(r, (int)via);
     switch (via) {
       case VIA_NAMED: got = named.get<T>("x", f); break;
       case VIA_MULTI: { auto v = named.get_multi<T>("x", f); count = v.size(); got = v.empty() ? 0 : v[0]; break; }
@@ -457,6 +469,7 @@ const char* float_read(vf::Run& r, Arguments& named, Arguments* positional, cons
   size_t count = 1;
   std::string what;
   std::string oc = vf::outcome([&] {
+    set_ambient_errno(r, via);
     switch (via) {
       case VIA_NAMED: got = named.get<T>("x"); break;
       case VIA_MULTI: { auto v = named.get_multi<T>("x"); count = v.size(); got = v.empty() ? 0 : v[0]; break; }
